@@ -97,7 +97,7 @@ def run(chk):
             {"module": "InterpMC", "cfg": "InterpMC_full.cfg" if chk.thorough() else "InterpMC.cfg",
              "label": ("B1 pool {1/16..1} 2-6 points degree 1-3, pool {1/8..1} 2-6 points degree 4, rejection lists"
                        if chk.thorough() else
-                       "B1 pool {1/8..1} 2-4 points degree 1-3 and 5 points degree 3-4, pool {1/16..1} 2-3 points degree 1-2, rejection lists"),
+                       "B1 pool {1/8..1} 2-4 points degree 1-3 and 5 points degree 4, pool {1/16..1} 2-3 points degree 1-2, rejection lists"),
              "workers": 12 if chk.thorough() else 8},
             {"module": "InterpMC", "cfg": "InterpMC_upperopen.cfg", "label": "design switch UpperClosed=FALSE (must violate)", "workers": 1, "expect_violation": "InvC34"},
         ]
